@@ -518,6 +518,9 @@ func (x *Exec) resolveModifies(st *State, env *Env, item string, out map[string]
 func (x *Exec) havocAll(st *State, except []string) {
 	x.recAll()
 	keep := map[string]Term{}
+	// ghost state (effect log, ghost variables) is only ever changed by ghost
+	// statements and emits clauses, never by unknown code
+	except = append(append([]string(nil), except...), "G$")
 	for _, name := range sortedKeys(x.heapSorts) {
 		for _, p := range except {
 			if strings.HasPrefix(name, p) {
